@@ -19,7 +19,7 @@ type c05 struct{ base }
 
 func init() {
 	core.Register(c05{base{id: "C05", level: "exploration", quickB: 16, thoroughB: 32,
-		rule: "scripts = per Query 0..4 statements, each a column set and a sequence over {row, wrong-arity row, unencodable row at column j, Complete(tag), Empty, Written, return error}; plus blank queries, parser errors, zero-statement parses. quick: exhaustive single-statement scripts up to 4 ops x 3 column sets + exhaustive 2-statement scripts up to 2+2 ops + random; thorough: exhaustive to 5 ops + random up to 12 ops x 4 statements. A case is non-trivial when it contains a failing row, a call after completion, an error return, >1 statement, or a parser-level outcome; distinct = distinct op-kind/column-count shape.",
+		rule:        "scripts = per Query 0..4 statements, each a column set and a sequence over {row, wrong-arity row, unencodable row at column j, Complete(tag), Empty, Written, return error}; plus blank queries, parser errors, zero-statement parses. quick: exhaustive single-statement scripts up to 4 ops x 3 column sets + exhaustive 2-statement scripts up to 2+2 ops + random; thorough: exhaustive to 5 ops + random up to 12 ops x 4 statements. A case is non-trivial when it contains a failing row, a call after completion, an error return, >1 statement, or a parser-level outcome; distinct = distinct op-kind/column-count shape.",
 		need:        []string{"query_cycles", "ops_checked", "rows_delivered", "failed_rows", "calls_after_completion", "error_returns"},
 		assumptions: append([]string{"Empty() is only required to emit no bytes; whether it completes the writer is left open (both accepted, consistently)"}, commonAssumptions...)}})
 }
@@ -38,8 +38,9 @@ const (
 var opNames = []string{"row", "arity", "badrow", "complete", "empty", "written", "err"}
 
 type c05stmt struct {
-	NCols int
-	Ops   []int
+	NCols  int
+	Ops    []int
+	Define bool // the columns are announced by the handler (DataWriter.Define), not declared with the statement
 }
 type c05script struct {
 	Kind  string // stmts | blank | parseerr | nostmt
@@ -52,6 +53,9 @@ func (s c05script) shape() string {
 	sb.WriteString(s.Kind)
 	for _, st := range s.Stmts {
 		fmt.Fprintf(&sb, "|%d:", st.NCols)
+		if st.Define {
+			sb.WriteByte('+')
+		}
 		for _, o := range st.Ops {
 			sb.WriteByte(byte('a' + o))
 		}
@@ -100,6 +104,9 @@ func (s c05script) build(qid int) *hs.Prog {
 				h.Cols = append(h.Cols, wire.Column{Name: fmt.Sprintf("col%d_%d", si, j), Oid: o, Width: 4, Table: int32(si), AttrNo: int16(j + 1)})
 			}
 		}
+		if st.Define && st.NCols > 0 {
+			h.Define, h.Cols = h.Cols, nil
+		}
 		for oi, o := range st.Ops {
 			op := hs.Op{K: opNames[o]}
 			switch o {
@@ -137,7 +144,10 @@ func (s c05script) build(qid int) *hs.Prog {
 					op.Tag = strings.Repeat("t", []int{63, 64, 65, 127, 128, 255, 256}[(qid+si+oi)%7])
 				}
 			case oErr:
-				op.Err = &hs.ErrSpec{Base: fmt.Sprintf("stmt failure %d.%d", si, oi), Wraps: []hs.Wrap{{K: 'c', S: "22000"}}}
+				op.Err = &hs.ErrSpec{Base: fmt.Sprintf("stmt failure %d.%d", si, oi), Cause: xCause(fmt.Sprintf("c05 %d.%d.%d", qid, si, oi)), Wraps: []hs.Wrap{{K: 'c', S: "22000"}}}
+				if (qid+si+oi)%11 == 0 {
+					op.Err.Base = "" // the bare standard-library error
+				}
 			}
 			h.Ops = append(h.Ops, op)
 		}
@@ -194,7 +204,7 @@ func (c05) scripts(c *core.Ctx) []c05script {
 		s := c05script{Kind: "stmts"}
 		ns := 1 + rng.Intn(maxStmts)
 		for j := 0; j < ns; j++ {
-			st := c05stmt{NCols: rng.Intn(4)}
+			st := c05stmt{NCols: rng.Intn(4), Define: rng.Intn(4) == 0}
 			no := rng.Intn(maxOps + 1)
 			for k := 0; k < no; k++ {
 				o := rng.Intn(nOps)
@@ -248,6 +258,20 @@ func (ch c05) Run(c *core.Ctx) {
 			text = s.Text
 		} else {
 			sess.Progs[text] = s.build(idx)
+		}
+		if k := (idx / nb) % 9; k == 2 || k == 6 {
+			// the Query arrives inside an open extended-query sequence (Parse + Flush, no Sync yet), or
+			// right after one was closed by Sync: a simple Query is a cycle of its own either way
+			sess.Progs["pre-parse"] = &hs.Prog{Stmts: []*hs.Stmt{{ID: "pre", Ops: []hs.Op{{K: "complete", Tag: "OK"}}}}}
+			pre, want := append(pg.Parse("pre", "pre-parse", nil), pg.Flush()...), "1"
+			if k == 6 {
+				pre, want = append(pre, pg.Sync()...), "1Z"
+			}
+			if o, _ := cl.Step(pre); pg.Types(mustMsgs(o)) != want {
+				c.Violate("prefix", "Parse + Flush before the simple Query not answered as expected", fmt.Sprintf("got %q want %q", replyKinds(o), want), s)
+				return
+			}
+			c.Count("queries_inside_open_extended_sequence", 1)
 		}
 		evStart := len(cl.C.Events())
 		out, closed := cl.Step(pg.Query(text))
@@ -310,6 +334,8 @@ func (ch c05) judge(c *core.Ctx, idx int, s c05script, text string, out []byte, 
 			execs++
 		case "op":
 			ops = append(ops, e.Data.(hs.OpRes))
+		case "define":
+			return viol("define", "DataWriter.Define failed or Columns() disagrees", fmt.Sprint(e.Data))
 		}
 	}
 	// expected transcript
@@ -334,8 +360,11 @@ func (ch c05) judge(c *core.Ctx, idx int, s c05script, text string, out []byte, 
 			h := prog.Stmts[si]
 			if st.NCols > 0 {
 				m := expMsg{T: 'T', NCols: st.NCols}
-				for _, col := range h.Cols {
+				for _, col := range append(append(wire.Columns{}, h.Cols...), h.Define...) {
 					m.Names = append(m.Names, col.Name)
+				}
+				if h.Define != nil {
+					c.Count("handler_defined_columns", 1)
 				}
 				exp = append(exp, m)
 			}
@@ -417,7 +446,7 @@ func (ch c05) judge(c *core.Ctx, idx int, s c05script, text string, out []byte, 
 				case oWritten:
 					// checked below for every op
 				case oErr:
-					exp = append(exp, expMsg{T: 'E', Code: "22000", Msg: h.Ops[oi].Err.Base})
+					exp = append(exp, expMsg{T: 'E', Code: "22000", Msg: h.Ops[oi].Err.BaseText()})
 					c.Count("error_returns", 1)
 					if r.Written != written {
 						return viol("written", "Written() differs from rows delivered", fmt.Sprintf("Written()=%d, rows delivered=%d", r.Written, written))
